@@ -6,6 +6,8 @@ COMMON = "Trusted: go/ssa as the program text, memory model of DESIGN.md 3.3 (im
 CLAIMS = {
  "C01": ("Post-conditions of Message.Prepare (layout with named witnesses, BodyLength = |MsgType field + tail + SOH|, CheckSum = digits3(sum of all bytes before the CheckSum field mod 256)), BytesWithoutChecksum, CalcBodyLength and CalcCheckSum (loop invariant over the byte sum, %03s padding lemma), proved for arbitrary tags, arbitrary header/body images and arbitrary lengths; KeyValue/Items/Component/Group ToBytes against a recursive wire specification.",
          COMMON + "Preconditions: header non-nil, BeginString/MsgType populated, framing KeyValues distinct (established by NewMessage); bodyLength/checkSum KeyValues owned by the message (escape through Items() assumed benign). bsum_cat/bsum_snoc/join_snoc are trusted string schemata.", "DESIGN.md 9 C01"),
+ "C02": ("(a) value codecs: every FromBytes satisfies a per-type decoding post (fbPost) and the text round trips atoi(dec n)=n, ParseUint, Y/N are proved as lemmas; Float keeps its source bytes, so re-serialization is byte-exact; (b) KeyValue.AsTemplate returns a fresh, null value of the same dynamic type, scanKeyValue hands FromBytes exactly the value of the first anchored occurrence of tag=. (c) the composed inverse parse(serialize m) = m over nested templates is NOT proved (it needs an inductive fact about substring search that no installed solver derives, DESIGN.md 2.3).",
+         COMMON + "ParseFloat(FormatFloat v)=v and time Parse(Format t)=t are trusted axioms; Group/Component.AsTemplate contracts trusted; composition over templates not decided (bounded stand-in planned, never counted as proved).", "DESIGN.md 9 C02"),
  "C03": ("validateRaw returns nil only if the bytes decompose exactly as BeginString SOH BodyLength SOH R CheckSum SOH with atoi(BodyLength) = |R| and CheckSum = digits3(byte sum before the CheckSum field mod 256); DefaultUnmarshaller.Unmarshal and encoding.Unmarshal succeed only if validateRaw accepted the same bytes. Both strict modes (strict is a free Boolean).",
          COMMON + "The closing step 'a framed string at edit distance one from a framed string is not framed' is arithmetic on strings, independent of the code, and is trusted (not machine-proved). Framing tags are distinct digit strings (assumed builder contract).", "DESIGN.md 9 C03"),
  "C11": ("Panic-freedom and termination obligations (every index, slice, nil dereference, unchecked type assertion, interface call, loop variant) generated automatically from go/ssa for ValueByTag, scanKeyValue, splitGroup, state.unmarshal, unmarshalItems, validateRaw and CalcCheckSum, discharged for all byte strings and all well-formed templates.",
@@ -13,7 +15,7 @@ CLAIMS = {
  "C17": ("Every ToBytes (seven value types against wireV, KeyValue, Items, Component, Group) equals a recursive wire specification: one field per populated leaf, own tag, canonical text, template order, count field before each group; constructors and Set populate the value; BytesWithoutChecksum emits header then body after the three framing fields.",
          COMMON + "Two recorded findings (known_findings.json): all-null group entry emits an empty field; trailer is never serialized. strconv/time formatting functions are uninterpreted (canonical text = what the standard library prints).", "DESIGN.md 9 C17"),
  "C18": ("Anchoring post-conditions at lookup sites: a returned value starts right after an occurrence of tag= that is at offset 0 or directly after SOH; proved for all byte strings and tags.",
-         COMMON + "Currently covers fix.ValueByTag; further lookup sites are being brought under contract.", "DESIGN.md 9 C18"),
+         COMMON + "Sites: fix.ValueByTag (returned value starts after an anchored tag=), scanKeyValue (value handed to FromBytes is valueAt(firstAnchored)), start of group parsing in state.unmarshal (anchored count tag). splitGroup split points and Conn.runReader end-of-message detection are not yet under a C18 clause.", "DESIGN.md 9 C18"),
 }
 NA = {
  "C13": "liveness / goroutine reclamation over channel interleavings: not expressible as per-function contracts with sequential VCs (DESIGN.md section 11)",
